@@ -60,19 +60,19 @@ Proof. exact device_reads. Qed.
    expected uplink counter and a fetch-and-increment of the downlink counter - refined by the SQL statements
    (C18_storage_is_the_registry) like every other operation *)
 Theorem C18_advance_is_compare_and_store :
-  forall s e a nf kw,
-    dev_at (fst (a_step s (AdvanceFCntUp e a nf kw))) e
-    = option_map (fun old => if rd_fup old <=? a then upd_dev_state old nf (rd_fdn old) kw else old) (dev_at s e).
+  forall s e key a nf kw,
+    dev_at (fst (a_step s (AdvanceFCntUp e key a nf kw))) e
+    = option_map (fun old => if (rd_fup old <=? a) && bytes_eqb (rd_nwkskey old) key then upd_dev_state old nf (rd_fdn old) kw else old) (dev_at s e).
 Proof. exact advance_is_compare_and_store. Qed.
 Theorem C18_advance_answers_ok_iff_not_passed :
-  forall s e a nf kw,
-    snd (a_step s (AdvanceFCntUp e a nf kw)) = ROk <-> exists d, In d (a_devs s) /\ rd_eui d = e /\ rd_fup d <= a.
+  forall s e key a nf kw,
+    snd (a_step s (AdvanceFCntUp e key a nf kw)) = ROk <-> exists d, In d (a_devs s) /\ rd_eui d = e /\ rd_fup d <= a /\ rd_nwkskey d = key.
 Proof. exact advance_answers_found_iff_stored. Qed.
 Theorem C18_next_is_fetch_and_increment :
-  forall s e,
-    snd (a_step s (NextFCntDn e)) = match dev_at s e with Some d => RCnt (rd_fdn d) | None => RNotFound end /\
-    dev_at (fst (a_step s (NextFCntDn e))) e
-    = option_map (fun old => upd_dev_state old (rd_fup old) ((rd_fdn old + 1) mod 65536) (rd_kw old)) (dev_at s e).
+  forall s e key, unique_devs s ->
+    snd (a_step s (NextFCntDn e key)) = match dev_at s e with Some d => if bytes_eqb (rd_nwkskey d) key then RCnt (rd_fdn d) else RNotFound | None => RNotFound end /\
+    dev_at (fst (a_step s (NextFCntDn e key))) e
+    = option_map (fun old => if bytes_eqb (rd_nwkskey old) key then upd_dev_state old (rd_fup old) ((rd_fdn old + 1) mod 65536) (rd_kw old) else old) (dev_at s e).
 Proof. exact next_is_fetch_and_increment. Qed.
 (* the downlink queue of a device: what is created is listed, what is deleted is gone, nothing done for another device
    touches it; the status operations the pipeline uses (C06, C08) change exactly the messages their condition names and
@@ -107,16 +107,16 @@ Theorem C18_pipeline_storage_operations_agree :
      (forall fc now, queue_is (fst (a_step s (UpdateMessageAckTime e fc (Z.of_N now)))) e (l_update_ack_time st fc now)) /\
      queue_is (fst (a_step s (ResetActiveAcks e))) e (l_reset_active_acks st) /\
      snd (a_step s (GetNextUnsentMessage e)) = match l_get_next_unsent st with Some m => RDowns [to_downm m] | None => RNotFound end) /\
-  (row_is s e st ->
-     (forall a nf kw, row_is (fst (a_step s (AdvanceFCntUp e a nf kw))) e (fst (l_advance_fup st a nf kw))) /\
-     (row_is (fst (a_step s (NextFCntDn e))) e (fst (l_next_fdn st)) /\
-      snd (a_step s (NextFCntDn e)) = match snd (l_next_fdn st) with Some c => RCnt c | None => RNotFound end) /\
+  (row_is s e st -> unique_devs s ->
+     (forall key a nf kw, row_is (fst (a_step s (AdvanceFCntUp e key a nf kw))) e (fst (l_advance_fup st key a nf kw))) /\
+     (forall key, row_is (fst (a_step s (NextFCntDn e key))) e (fst (l_next_fdn st key)) /\
+      snd (a_step s (NextFCntDn e key)) = match snd (l_next_fdn st key) with Some c => RCnt c | None => RNotFound end) /\
      (forall dev, row_is (fst (a_step s (UpdateDeviceState e (d_fup dev) (d_fdn dev) (d_keywarn dev)))) e (fst (l_update_device_state st dev)))).
 Proof.
-  intros s e st. split; intros H.
+  intros s e st. split; [intros H | intros H Hu].
   - split; [intros; now apply set_sent_time_agrees|]. split; [intros; now apply update_ack_time_agrees|].
     split; [now apply reset_active_acks_agrees | now apply next_unsent_agrees].
-  - split; [intros; now apply advance_fup_agrees|]. split; [now apply next_fdn_agrees | intros; now apply update_device_state_agrees].
+  - split; [intros; now apply advance_fup_agrees|]. split; [intros; now apply next_fdn_agrees | intros; now apply update_device_state_agrees].
 Qed.
 Theorem C18_one_device_per_eui : forall s o, unique_devs s -> unique_devs (fst (a_step s o)).
 Proof. exact one_device_per_eui. Qed.
